@@ -280,9 +280,11 @@ theorem lib_correct_partial (g : Graph) (hw : ∀ e ∈ g.arcs, 0 ≤ e.2.2)
 /-- **The ported `dijkstra.Graph.Shortest` is partially correct** for weights ≥ 0, for every
 iteration order of the arc maps: an answer `ok d p` is a least-cost walk starting with an arc of
 `src`; `ErrNoPath` means no walk cheaper than the library's infinity exists; the "loop detected"
-error never occurs. Only termination within the fuel is not covered (`outOfFuel`; `badPred` is
-`bestPath` not reaching `src` within `n + 1` steps). -/
-theorem lib_shortest_correct (g : Graph) (hw : ∀ e ∈ g.arcs, 0 ≤ e.2.2) (src dest : Nat)
+error never occurs; `bestPath` always reaches `src` (the predecessor pointers are acyclic even with
+zero-cost arcs: ghost time stamps). Only termination of the main loop within the fuel is not
+covered (`outOfFuel`). -/
+theorem lib_shortest_correct (g : Graph) (hw : ∀ e ∈ g.arcs, 0 ≤ e.2.2)
+    (hwf : ∀ e ∈ g.arcs, e.2.1 < g.n) (src dest : Nat) (hs : src < g.n)
     (hsd : src ≠ dest) (fuel : Nat) :
     match libShortest fuel g.n (adjOf g.arcs) src dest with
     | .ok d p => IsDist g src dest d ∧
@@ -290,8 +292,8 @@ theorem lib_shortest_correct (g : Graph) (hw : ∀ e ∈ g.arcs, 0 ≤ e.2.2) (s
     | .noPath => ∀ c, Walk g src dest c → infDist ≤ c
     | .loopErr => False
     | .outOfFuel => True
-    | .badPred => True :=
-  Lemmas.libShortest_spec g hw hsd fuel
+    | .badPred => False :=
+  Lemmas.libShortest_spec g hw hwf hs hsd fuel
 
 /-- **`computeRoutingTable` with the ported library loop** (`Shortest(0, i)`, `Path[1]`) yields a
 table with the property, for every graph with weights ≥ 0 — provided the loop terminates within
@@ -300,8 +302,7 @@ library's infinity `MaxInt64 - 2`. -/
 theorem lib_correct (g : Graph) (hw : ∀ e ∈ g.arcs, 0 ≤ e.2.2) (hwf : ∀ e ∈ g.arcs, e.2.1 < g.n)
     (hcost : ∀ d c, Walk g 0 d c → ∃ c', Walk g 0 d c' ∧ c' < infDist)
     (hterm : ∀ d, d < g.n → d ≠ 0 →
-      libShortest (libFuel g) g.n (adjOf g.arcs) 0 d ≠ .outOfFuel ∧
-      libShortest (libFuel g) g.n (adjOf g.arcs) 0 d ≠ .badPred) :
+      libShortest (libFuel g) g.n (adjOf g.arcs) 0 d ≠ .outOfFuel) :
     MinCostNextHop g (lookup (libTable g)) :=
   Lemmas.libTable_correct g hw hwf hcost hterm
 
@@ -334,9 +335,7 @@ theorem routing_table_min_cost (s : State) (now : Nat) (hp : Lemmas.PastLosses n
     ((∀ d c, Walk (buildGraph now s) 0 d c → ∃ c', Walk (buildGraph now s) 0 d c' ∧ c' < infDist) →
      (∀ d, d < (buildGraph now s).n → d ≠ 0 →
         libShortest (libFuel (buildGraph now s)) (buildGraph now s).n
-          (adjOf (buildGraph now s).arcs) 0 d ≠ .outOfFuel ∧
-        libShortest (libFuel (buildGraph now s)) (buildGraph now s).n
-          (adjOf (buildGraph now s).arcs) 0 d ≠ .badPred) →
+          (adjOf (buildGraph now s).arcs) 0 d ≠ .outOfFuel) →
      MinCostNextHop (buildGraph now s) (lookup (libTable (buildGraph now s)))) := by
   have hw := Lemmas.buildGraph_nonneg hp hnow
   have hwf := Lemmas.buildGraph_wf (now := now) hix
